@@ -441,6 +441,23 @@ theorem idstar_sound_fragment2 (M : Model) (ν : BaseValues) (hν : ν.Distinct)
     · exact idStarFuel_sound_lit M ν dom hM (fun pmf hp => (hnorm pmf hp).2) hdom hG hdl hbl hord hdo _ _ ev hne hone
         (sKeys_starOf ev) hviol hcl _ e h
 
+/-- the reading used by `idstar_sound_fragment2` gives every outcome variable of the event the event's own value, and every
+variable of the event's world the value the world sets it to -/
+theorem evVal_is_event_value (ν : BaseValues) (ev : Event) (hne : ev ≠ []) (hfr : OneWorld G ev)
+    (hviol : violatesEffectiveness ev = false) :
+    (∀ p ∈ ev, evVal ν (starOf ev) (worldB ev) p.1.name = ivValue ν p.2) ∧
+    (∀ i ∈ worldB ev, evVal ν (starOf ev) (worldB ev) i.name = ivValue ν i) := by
+  obtain ⟨hu, hst, hkv⟩ := evVal_facts ν hfr (sKeys_starOf ev) hviol (frag2_consistent hfr hne)
+  constructor
+  · intro p hp
+    rw [hkv p.1 ((mem_keys_iff ev p.1).2 ⟨p.2, hp⟩), hfr.vals p hp]
+    rfl
+  · intro i hi
+    unfold ivValue
+    cases hs : i.star with
+    | false => exact hu i hi hs
+    | true => exact hst i hi hs
+
 /-- **on a single-world event ID\* never refuses** (any polarity; acyclic graph): it returns an estimand, One or Zero -/
 theorem idstar_answers_oneworld (hG : G.WF) (hA : G.Acyclic) (hdl : ∀ e ∈ G.di, e.1 ≠ e.2) (hbl : ∀ e ∈ G.bi, e.1 ≠ e.2)
     {ordf : List World → List World} (hord : PermOrder ordf) {dordf : List Var → List Var} (hdo : PermDistrict dordf)
@@ -828,6 +845,9 @@ example : inFragment2B sortWorlds gBA [(A, ⟨0, true⟩), (B, ⟨1, false⟩)] 
 /-- … and the F10/M1 witness `B = b' ∧ A = a` is outside it (the starred-valued key `B` is a parent of `A`, two districts),
 so is the F10/M2 witness `B = b ∧ A_{b'} = a` … -/
 example : inFragment2B sortWorlds gBA [(B, ⟨1, true⟩), (A, ⟨0, false⟩)] = false := by decide
+/-- the hypothesis `InFragment2` of `idstar_sound_fragment2` is satisfiable by an event outside fragment 1 (with `PermOrder sortWorlds`:
+`permOrder_sortWorlds`) -/
+example : InFragment2 sortWorlds gBA [(A, ⟨0, true⟩), (B, ⟨1, false⟩)] := inFragment2B_sound gBA _ (by decide)
 /-- … `B_b = b'` is inside (line 2 answers Zero, soundly) -/
 example : inFragment2B sortWorlds gBA [({ name := 1, ivs := [⟨1, false⟩] }, ⟨1, true⟩)] = true := by decide
 
